@@ -9,11 +9,11 @@ def prof(seed):
     k = seed % 4
     base = dict(p_flag=0.6, p_opt=0.12, p_split=0.25, p_stamp=0.15, p_watch=0.05, p_always=0.08, p_multi=0.45)
     if k == 0:
-        return gen.profile(ops=dict(m_failfix=6, flag=5, build=8, repeat=3, force=1), **base)
+        return gen.profile(ops=dict(m_failfix=6, flag=5, build=8, repeat=3, force=1, m_hfail=4, hflag=1), **base)
     if k == 1:
         return gen.profile(jmax=4, p_keep=0.5, ops=dict(m_failfix=6, flag=5, build=8, repeat=3), **base)
     if k == 2:
-        return gen.profile(ntgt=(5, 11), p_keep=0.5, ops=dict(m_failfix=5, flag=5, build=8, repeat=2, edit_r=2), **base)
+        return gen.profile(ntgt=(5, 11), p_keep=0.5, ops=dict(m_failfix=5, flag=5, build=8, repeat=2, edit_r=2, m_hfail=3, force=2), **base)
     return gen.profile(jmax=4, ntgt=(5, 11), ops=dict(m_failfix=5, flag=5, build=8, repeat=2, rm=1), **base)
 
 
@@ -36,6 +36,26 @@ def hook(hr, step, op, entry, anoms, ctx):
             if rc == '0' and deps & failed:
                 out.append(Anomaly(cls='swallowed', key='swallowed-failure:nested-redo-ifchange',
                                    what='redo-ifchange inside %s exited 0 although %s failed in this run' % (n, sorted(deps & failed))))
+    # (2) trace only: a script that was started after a target in its (strict) dependency closure had failed in this run cannot exit 0
+    def strict_closure(n, acc):
+        for d in p.curdeps(n):
+            if d in p.targets and d not in p.user and d not in acc:
+                acc.add(d)
+                strict_closure(d, acc)
+        return acc
+    failed_so_far = set()
+    failed_at_start = {}
+    for f in recs:
+        if f[0] == 'S' and len(f) >= 3 and f[1] in p.targets:
+            failed_at_start[(f[1], f[2])] = set(failed_so_far)
+        elif f[0] == 'E' and len(f) >= 4 and f[1] in p.targets:
+            if f[3] != '0':
+                failed_so_far.add(f[1])
+            else:
+                bad = strict_closure(f[1], set()) & failed_at_start.get((f[1], f[2]), set())
+                if bad:
+                    out.append(Anomaly(cls='swallowed', key='succeeded-above-a-target-that-failed-in-this-run',
+                                       what='%s was started after %s had failed in this run and exited 0 although it depends on it' % (f[1], sorted(bad))))
     # (6) per process: no job is started after a failure is known (without --keep-going)
     known = {}
     keep = {}
